@@ -25,7 +25,7 @@ impl Stringify for Template {
             stringifier.write_str(r#"import "#)?;
             stringifier.write_token("src", None, &i.src_location)?;
             stringifier.write_str(r#"="#)?;
-            stringifier.write_str_name_quoted(&i.src)?;
+            stringifier.write_src_quoted(&i.src, ".wxml")?;
             stringifier.write_token("/", None, &i.tag_location.close)?;
             stringifier.write_token(">", None, &i.tag_location.start.1)?;
         }
@@ -86,7 +86,7 @@ impl Stringify for Template {
                     stringifier.write_str(r#" "#)?;
                     stringifier.write_token("src", None, src_location)?;
                     stringifier.write_str(r#"="#)?;
-                    stringifier.write_str_name_quoted(src)?;
+                    stringifier.write_src_quoted(src, ".wxs")?;
                     stringifier.write_token("/", None, &tag_location.close)?;
                     stringifier.write_token(">", None, &tag_location.start.1)?;
                 }
@@ -668,7 +668,12 @@ impl Stringify for Element {
             }
             ElementKind::Include { path } => {
                 stringifier.write_str("include")?;
-                write_named_static_attr(stringifier, "src", &path.0, &path.1)?;
+                stringifier.write_str(" ")?;
+                stringifier.write_token("src", Some("src"), &path.0)?;
+                if path.1.name.len() > 0 {
+                    stringifier.write_str(r#"="#)?;
+                    stringifier.write_src_quoted(&path.1, ".wxml")?;
+                }
             }
             ElementKind::Slot {
                 name,
